@@ -7,8 +7,13 @@
                   noodles-cram/src/record/cigar/iter.rs, noodles-sam .../cigar/iter/try_simplify.rs
 
    Conventions: bytes, positions and lengths are N; positions are 1-based as noodles_core::Position.
-   A Rust panic (slice/index out of bounds, Option::unwrap on None, usize underflow with
-   overflow checks) is the result [None]; usize *overflow* is not modelled (N is unbounded).
+   Writer side ([c2f], [cigar_to_features]): [None] is the result Err(InvalidInput) that
+   cigar_to_features returns when a lookup falls outside the sequence, the quality scores or the
+   reference sequence (get_base / get_bases / get_quality_score(s) / get_reference_base(s); these
+   lookups panicked before /repo 9757af4).  Reader side ([rebuild_seq]): [None] is a failed
+   reconstruction (slice out of bounds, usize underflow); SubstitutionMatrix::find(..).unwrap() on a
+   matrix without the read base is [None] of [encode_features].  The composed [roundtrip] keeps the
+   three apart in its [outcome].  usize *overflow* is not modelled (N is unbounded).
    Definitions only; proofs are in FeaturesProofs.v. *)
 From Coq Require Import List NArith Bool.
 Import ListNotations.
@@ -353,20 +358,28 @@ Definition norm_ops (ops : list op) : list op := map (fun o => (norm_kind (fst o
 Definition writer_quals (seq quals : list N) : list N :=
   match quals with [] => repeat 255 (length seq) | _ => quals end.
 
+(* result of writing one mapped record and reading it back *)
+Inductive outcome :=
+| ROk (cigar : list op) (bases : list N)
+| RInvalidInput            (* the writer rejects the record: Err(InvalidInput) *)
+| RWritePanic              (* SubstitutionMatrix::find(..).unwrap() (unreachable for a valid matrix) *)
+| RReadFail.               (* the reader cannot reconstruct the bases (never for what the writer accepts
+                              inside the reference: FeaturesProofs.roundtrip_ok) *)
+
 Definition roundtrip (sm : smatrix) (refseq seq quals : list N) (ops : list op) (start : N)
-  : option (list op * list N) :=
+  : outcome :=
   match cigar_to_features true refseq seq (writer_quals seq quals) ops start with
-  | None => None
+  | None => RInvalidInput
   | Some ws =>
       match encode_features sm ws with
-      | None => None
+      | None => RWritePanic
       | Some fs =>
           (* record.rs: SEQUENCE_IS_MISSING (empty sequence) bypasses the reconstruction *)
-          if len seq =? 0 then Some (simplify (rebuild_cigar fs 1 0), [])
+          if len seq =? 0 then ROk (simplify (rebuild_cigar fs 1 0)) []
           else
           match rebuild_seq refseq sm fs start 1 (len seq) with
-          | None => None
-          | Some s => Some (simplify (rebuild_cigar fs 1 (len seq)), s)
+          | None => RReadFail
+          | Some s => ROk (simplify (rebuild_cigar fs 1 (len seq))) s
           end
       end
   end.
